@@ -47,8 +47,10 @@ def tables_for(rnd, d, q, e, n):
                 # str.splitlines() breaks at, NUL-free control characters, non-ASCII
                 "\ufeff", "\ufeffx", "x\ufeff", "\u2028", "\x85x", "\x0b", "x\x0c", "\x1c", "\xa0", "é\u20ac"]
     tables = [[[a]] for a in alphabet]
-    # a cell longer than the csv module's default field size limit (131072 characters)
-    tables.append([["y" * 131073, "b"], ["c", "d"]])
+    # a cell longer than the csv module's default field size limit (131072 characters) - for the plain quote / escape settings only,
+    # the model has to walk through every character
+    if q == '"' and e == '"' and d in ",;\t":
+        tables.append([["y" * 131073, "b"], ["c", "d"]])
     tables += [[[a, b]] for a in alphabet[:9] for b in alphabet[:6]]
     for _ in range(n):
         ncols = rnd.randint(1, 4)
